@@ -12,6 +12,11 @@ CLAIMED = {
           "Every reachable order-tracking state for 2-3 concurrent client order ids (all 10 exchange-consistent fill timelines per id) is enumerated to fixpoint, on the Orders table directly and through EngineState::update_from_account / the in-flight recorder over 3 instruments on 2 exchanges; every transition executes the real code and is compared with the allowed-successor set the statement gives for (tracked state, input); all inputs (duplicates, stale, out-of-order, full snapshots) are offered in every state.",
           "Unique client order ids; exchange reports of one order follow a timeline with non-decreasing fill level (late/duplicate/out-of-order delivery unrestricted); timestamps in {1,2,3}, fill levels in {0, half, full}.",
           "DESIGN.md §3 C01"),
+  "C02": ("exploration", "E-SEQ",
+          "bounded-exhaustive fill sequences through PositionManager::update_from_trade and Engine::process against a cash-flow ledger",
+          "All sequences of fills (side x qty{1,2,3} x price{90,100,110} x fee{0,0.3}; five magnitude variants; a narrow alphabet going deeper) up to length 4-6 (quick) / 5-7 (thorough), on the PositionManager directly and through the real Engine::process (closed record taken from the audit); after every fill: side/size == sign/|net|, closed record iff net reaches or crosses zero, pro-rata fee on a flip remainder, realised-PnL and fee conservation against the ledger, every fill id on exactly the positions it affected.",
+          "Tolerance 1e-18 x gross cash flow for 'up to decimal rounding'; any cost-basis method satisfying the conservation law is accepted.",
+          "DESIGN.md §3 C02"),
   "C03": ("model_checking", "E-BFS",
           "depth-bounded explicit-state BFS over the real Engine::process with scripted strategy/risk/links",
           "Every engine event history up to the tier's depth over (market/account items, trading-state toggles, the four commands, shutdown) x strategy output menu x risk verdict x per-step link fault mode (healthy / closed / missing / unhealthy / out-of-range index) is executed through the real Engine::process; after every tick: sent => delivered exactly once on the named link and in flight; failed => error class per link kind, no delivery, no mark, fatal => terminal; refused => reported, not delivered, no mark; disabled => nothing strategy-generated is issued while commands and state updates still happen (differential against an enabled idle engine); enabling event generates.",
@@ -47,11 +52,21 @@ CLAIMED = {
           "Every sequence with repetition of length <=4 (quick) / <=6 (thorough) and every permutation of larger subsets of an 8-definition menu goes through IndexedInstrumentsBuilder; dense keys, uniqueness, completeness, inverse lookups, per-role asset/exchange resolution and order independence are checked against the definitions; all 255 subsets through EngineStateBuilder (asset/instrument/connectivity tables, account snapshots) and every subset x link assignment through ExecutionBuilder::build polled by hand.",
           "One 8-definition menu (spot/perpetual/future/option, settlement-only and unit-only assets, shared asset names); name_internal unique per distinct instrument.",
           "DESIGN.md §3 C11"),
+  "C12": ("exploration", "E-ENV",
+          "exhaustive connection-script / backoff-policy / timing enumeration of the real reconnecting stream composition under virtual time + all interleavings of merge and forward_to",
+          "Every connection script (attempt = fail | ok(word over item / recoverable error / terminal error)) within the tier's blocks (112k quick / 3.3M thorough scripts) x 4-6 backoff policies x 3-5 timings x 5 observation modes runs the real init_reconnecting_stream -> with_reconnect_backoff -> with_termination_on_error -> with_reconnection_events (+ error handler, + forward_to, + the merged composition ExecutionManager::init uses) polled by hand on a paused runtime with every output stamped; delivery, single notice per drop, handler calls, exact backoff waits, reset after success and never-ends are compared with the script. merge and forward_to: all interleavings of push/close/poll up to depth 9/11 and 10/12.",
+          "Init latency and pacing uniform within a case; every connection ends; policies with initial <= max and multiplier >= 1.",
+          "DESIGN.md §3 C12"),
   "C13": ("exploration", "E-SEQ",
           "exhaustive sweep of (connector, kind) x instrument flavour x instrument sets x synthesised venue payloads through the real mapper and transformers",
           "For all 21 (connector, kind) arms of DynamicStreams::init and 4 instrument flavours: every ordered instrument set up to the tier's size from per-venue menus goes through the real WebSocketSubMapper::map, the connector's real transformer (ExchangeTransformer::init) and serde_json + transform for 2-3 payloads per market of the venue universe (subscribed or not); subscribed => exactly the payload's events with the subscribed key, the connector id and the payload's values; unsubscribed => unidentifiable error, never an event. Bitfinex runs its real subscription validator against a scripted venue on loopback.",
           "Payload templates follow the venue formats quoted in the connectors' doc comments / test fixtures; name_exchange is the venue's spelling; Gate.io options payload modelled on futures; loopback TCP available.",
           "DESIGN.md §3 C13"),
+  "C15": ("exploration", "E-SEQ",
+          "bounded-exhaustive interleavings of fills and market events through the real Engine::process",
+          "All histories up to length 4-6 (quick) / 4-7 (thorough) over fills, public trades and two-sided L1 updates with newer / equal / older timestamps, liquidations and empty L1 on two driven instruments (indices 1,2 of 3, two exchanges) go through Engine::process; after every event: a priced event newer than everything seen => pnl_unrealised == documented estimate at price(); a fill leaving a position => estimate at the fill price; events without a new price => unchanged or estimate at price(); other instrument untouched.",
+          "Single magnitude; time classes relative to the greatest timestamp the instrument has seen.",
+          "DESIGN.md §3 C15"),
   "C16": ("exploration", "E-SEQ",
           "bounded-exhaustive sequences of closed positions / fill round-trips through TearSheetGenerator and the engine's trading summary",
           "All sequences (<=4/<=5) of 24 closed-position symbols into TearSheetGenerator and (<=3/<=4) of 36 fill/balance symbols through EngineState::update_from_account over 3 instruments / 2 exchanges; after every prefix pnl, win rate and profit factor are recomputed in batch from the positions (documented conventions accepted), and every trading-summary entry must equal the sheet of a fresh generator fed only that instrument's/asset's history.",
